@@ -54,11 +54,11 @@ def argOf (name : Str) (line : Str) : Option Str :=
   else none
 
 def classify (line : Str) : Item :=
-  match argOf "citation".toList line, argOf "bibstyle".toList line,
-        argOf "bibdata".toList line, argOf "@input".toList line with
+  match argOf "citation".toList line, argOf "bibdata".toList line,
+        argOf "bibstyle".toList line, argOf "@input".toList line with
   | some a, _, _, _ => .citation (splitComma a)
-  | none, some a, _, _ => .bibstyle a
-  | none, none, some a, _ => .bibdata (splitComma a)
+  | none, some a, _, _ => .bibdata (splitComma a)
+  | none, none, some a, _ => .bibstyle a
   | none, none, none, some a => .input a
   | none, none, none, none => .other
 
